@@ -42,6 +42,31 @@ Qed.
 Theorem C33_unlock_reserved : forall net r, is_reserved r = true -> unlock_height net r = Ok None.
 Proof. intros net r H. exact (unlock_reserved (first_rune_height net) r H). Qed.
 
+(* Consequence used by the /rune page and by etching validation: a non-reserved name is etchable
+   at height h (minimum <= name) exactly when h has reached its reported unlock height. *)
+Theorem C33_etchable_iff : forall net r h, is_reserved r = false ->
+  exists u, unlock_height net r = Ok (Some u) /\ (minimum_at_height net h <= r <-> u <= h).
+Proof.
+  intros net r h H. destruct (C33_unlock_height net r H) as [u [E [_ [Hle Hlt]]]].
+  exists u. split; [exact E|]. split.
+  - intros Hm. destruct (N.le_gt_cases u h) as [L|G]; [exact L|].
+    specialize (Hlt h G). lia.
+  - intros L. pose proof (C33_monotone net u h L). lia.
+Qed.
+
+(* Larger (longer) names never unlock later than smaller ones. *)
+Theorem C33_unlock_antitone : forall net r r' u u', r <= r' ->
+  unlock_height net r = Ok (Some u) -> unlock_height net r' = Ok (Some u') -> u' <= u.
+Proof.
+  intros net r r' u u' Hr E E'.
+  destruct (is_reserved r) eqn:R; [rewrite (C33_unlock_reserved net r R) in E; discriminate|].
+  destruct (is_reserved r') eqn:R'; [rewrite (C33_unlock_reserved net r' R') in E'; discriminate|].
+  destruct (C33_unlock_height net r R) as [v [F [_ [Hle _]]]].
+  destruct (C33_unlock_height net r' R') as [v' [F' [_ [_ Hlt']]]].
+  rewrite E in F; rewrite E' in F'. injection F as <-. injection F' as <-.
+  destruct (N.le_gt_cases u' u) as [L|G]; [exact L|]. specialize (Hlt' u G). lia.
+Qed.
+
 (* Non-vacuity: mainnet activation 840000; the schedule really moves. *)
 Example C33_nonvacuous :
   first_rune_height 0 = 840000 /\ minimum_at_height 0 839998 = step 12 /\
@@ -56,3 +81,5 @@ Print Assumptions C33_thirteen_letters.
 Print Assumptions C33_complete.
 Print Assumptions C33_unlock_height.
 Print Assumptions C33_unlock_reserved.
+Print Assumptions C33_etchable_iff.
+Print Assumptions C33_unlock_antitone.
